@@ -123,14 +123,20 @@ func buildBinary(flavour, dir string) (string, error) {
 		args = append(args, "-modfile="+mf)
 	}
 	args = append(args, "-o", out, "./cmd/vmon")
-	cmd := exec.Command(gobin, args...)
-	cmd.Dir = verifDir
-	cmd.Env = goEnv()
-	b, err := cmd.CombinedOutput()
-	if err != nil {
-		return "", fmt.Errorf("build %s failed: %v\n%s", flavour, err, b)
+	var b []byte
+	var err error
+	for attempt := 0; attempt < 2; attempt++ {
+		cmd := exec.Command(gobin, args...)
+		cmd.Dir = verifDir
+		cmd.Env = goEnv()
+		if b, err = cmd.CombinedOutput(); err == nil {
+			return out, nil
+		}
+		// a build cache that is being trimmed concurrently makes a build
+		// fail spuriously: try once more before giving up
+		time.Sleep(3 * time.Second)
 	}
-	return out, nil
+	return "", fmt.Errorf("build %s failed: %v\n%s", flavour, err, b)
 }
 
 func altModfile(repo, dir string) (string, error) {
